@@ -80,6 +80,37 @@ def rev (shape : List Nat) (a c side : Nat) : Int :=
   else
     if idx.getD a 0 + 1 < shape.getD a 0 then (faceNum shape a idx : Int) else -1
 
+/-! ### the tables as the code builds them: index arrays + assignment (`A[keys] = vals`) -/
+
+/-- `tbl[κ 0], tbl[κ 1], … , tbl[κ (n-1)] = ν 0, … , ν (n-1)` executed in this order (numpy fancy assignment;
+a repeated key keeps the last value) -/
+def scatterN {α : Type} (tbl : List α) (κ : Nat → Nat) (ν : Nat → α) : Nat → List α
+  | 0 => tbl
+  | n + 1 => setAt (scatterN tbl κ ν n) (κ n) (ν n)
+
+/-- `np.ravel(cell_index[:-1 along a], "F")[k]` -/
+def loCellOf (shape : List Nat) (a k : Nat) : Nat := encF shape (decF (fshape shape a) k)
+
+/-- `np.ravel(cell_index[1: along a], "F")[k]` -/
+def hiCellOf (shape : List Nat) (a k : Nat) : Nat := encF shape (bump (decF (fshape shape a) k) a)
+
+/-- `connectivity[:, side]` after the assignments for the axes `0 … a-1`:
+`connectivity = zeros; connectivity[faces[b], side] = ravel(cell_index[shifted slice], "F")` -/
+def connFold (shape : List Nat) (side : Nat) : Nat → List Nat
+  | 0 => List.replicate (numFaces shape) 0
+  | a + 1 => scatterN (connFold shape side a) (fun k => offset shape a + k)
+      (fun k => if side = 0 then loCellOf shape a k else hiCellOf shape a k) (nfa shape a)
+
+/-- `connectivity[:, side]` -/
+def connTable (shape : List Nat) (side : Nat) : List Nat := connFold shape side shape.length
+
+/-- `reverse_connectivity[a, :, side]`: `-ones; rev[a, ravel(cell_index[1: along a]), 0] = faces[a];
+rev[a, ravel(cell_index[:-1 along a]), 1] = faces[a]` -/
+def revTable (shape : List Nat) (a side : Nat) : List Int :=
+  scatterN (List.replicate (numCells shape) (-1 : Int))
+    (fun k => if side = 0 then hiCellOf shape a k else loCellOf shape a k)
+    (fun k => ((offset shape a + k : Nat) : Int)) (nfa shape a)
+
 /-- the axes along which `interior_faces[a]` is sliced `1:-1` (code as it is: in 1-D along the normal axis
 itself, in 2-D/3-D along all tangential axes) -/
 def interiorAxes (dim a : Nat) : List Nat :=
